@@ -459,6 +459,7 @@ DOC = {
     "R17": "`if let P = E && C { B }` without else -> `if let P = E { if C { B } }` (per item)",
     "R18": "listed `for P in E { B }` loops -> `{ let mut it = E; loop { match it.next() { Some(P) => { B } None => break, } } }` (per item; rustc's desugaring minus into_iter)",
     "RX": "per-item literal token replacement listed in the overlay directive",
+    "RXO": "as RX, but an item that no longer contains the pattern is not a lost anchor: it is verified as it is",
 }
 
 
@@ -491,4 +492,9 @@ def apply_rules(t, extra=None):
             if n == 0:
                 fired.setdefault("RX-miss", 0)
                 fired["RX-miss"] += 1
+        elif kind == "RXO":
+            # optional replacement: rewrites every occurrence; an item that no longer contains the pattern is verified as it is
+            # (a deleted call must fail the contract, not lose the anchor)
+            t, n = r_replace(t, spec[1], spec[2])
+            fired["RXO"] = fired.get("RXO", 0) + n
     return t, fired
